@@ -114,6 +114,7 @@ PROPS = {
         "rule": ARITH_RULE + "specification = Nat.sqrt of the scaled operand + sticky, rounded once; non-trivial = inexact root, perfect square, special operand or negative operand",
     },
     "C11": {
+        "extra_modules": ["C11b"],
         "gens": [{"name": "C11", "quick": 1500, "thorough": 8000}],
         "nontrivial": {"shortest", "base10", "low-zero-word", "special"},
         "rule": ARITH_RULE + "Text(x, fmt, -1) for fmt in e E f g G p b and MarshalText, checked (a) to denote exactly x and to contain exactly MinPrec digits, then (b) parsed back into a receiver of precision >= MinPrec with base 10 or 0 and compared with x by Cmp and sign; values: dyadic, low zero words, specials, extreme exponents for exponent formats",
